@@ -7,7 +7,7 @@ from . import elect as EL
 from ..calltrace import judge_calls
 
 PID = "C06"
-PW_INV = ["TiersHaveProperties", "TiersAgree", "TopIsSmith", "CondorcetIffSingleton", "MarginAntisymmetric"]
+PW_INV = ["TiersHaveProperties", "TiersAgree", "TopIsSmith", "CondorcetIffSingleton", "CyclesIffBigTier", "MarginAntisymmetric"]
 
 
 def mcgarvey(cands, pattern, rng):
@@ -33,7 +33,7 @@ def call_work(inp):
     names = inp.get("names") or {c: c for c in inp["cands"]}
     inv = {v: k for k, v in names.items()}
     t = {"op": "pairwise", "cands": sorted(inp["cands"]), "bag": E._abstract_bag(inp["ballots"]), "dict": [], "tiers": [], "hascw": False,
-         "cw": "", "error": "", "_inp": inp}
+         "cw": "", "hascycles": False, "error": "", "_inp": inp}
     try:
         with quiet():
             prof = E.build_profile(inp["cands"], inp["ballots"], names, inp.get("cand_order"))
@@ -41,6 +41,7 @@ def call_work(inp):
             t["dict"] = sorted([inv[a], inv[b], rat(v)] for (a, b), v in g.pairwise_dict.items())
             t["tiers"] = [sorted(inv[c] for c in s) for s in g.dominating_tiers()]
             t["hascw"] = bool(g.has_condorcet_winner())
+            t["hascycles"] = bool(g.has_condorcet_cycles())
             try:
                 t["cw"] = inv[g.get_condorcet_winner()]
             except ValueError:
